@@ -254,4 +254,226 @@ theorem sim_valueOf {σ : Sh} {s t : St} (hR : StR σ s t) (o : Obj) :
       refine sim_valueOf_go _ _ _ s t hR ?_
       intro e nm h; cases h
 
+/-! ### makeRef -/
+
+theorem refTo_ren (σ : Sh) (o : Nat) (name : String) (obj : Obj) :
+    refTo (sh σ o) name (ren σ obj) = ren σ (refTo o name obj) := by
+  cases obj <;> rfl
+
+theorem isFuncObj_ren (σ : Sh) (o : Obj) : isFuncObj (ren σ o) = isFuncObj o := by
+  cases o <;> rfl
+
+/-- storing `r` under `name` in related frames -/
+theorem frameR_setStore {σ : Sh} {i : Nat} {fs ft : Frame} (h : FrameR σ i fs ft) (name : String) (v : Obj) :
+    FrameR σ i { fs with store := setStore fs.store name (ren σ v) } { ft with store := setStore ft.store name v } :=
+  ⟨by simp only; rw [h.store, setStore_ren], h.outer, h.depth, h.cacheKey, h.function, h.counters⟩
+
+theorem frameDec_setStore {i : Nat} {ft : Frame} (h : FrameDec i ft) (name : String) {v : Obj}
+    (hv : ∀ e n, v = Obj.ref e n → e < i) : FrameDec i { ft with store := setStore ft.store name v } := by
+  refine ⟨h.1, ?_⟩
+  intro k e n hm
+  rcases mem_setStore hm with h1 | h1
+  · exact h.2 k e n h1
+  · exact hv e n h1.symm
+
+theorem sim_makeRef_go {σ : Sh} (orig : Nat) (name : String) :
+    ∀ (n m e : Nat) (s t : St), StR σ s t → e < t.frames.size → e < n → sh σ e < m → e ≤ orig →
+      orig < t.frames.size →
+      SimAt σ (makeRef.go (sh σ orig) name m (sh σ e)) (makeRef.go orig name n e) s t (QOpt σ) := by
+  intro n
+  induction n with
+  | zero => intro m e s t _ _ h; exact absurd h (Nat.not_lt_zero _)
+  | succ n ih =>
+    intro m e s t hR het hen hem heo hot
+    obtain ⟨m', rfl⟩ : ∃ m', m = m' + 1 := ⟨m - 1, by omega⟩
+    unfold makeRef.go
+    refine sim_getFrame_bind hR e ?_
+    intro fs ft hte hfs hfr
+    rw [hfr.outer]
+    cases hout : ft.outer with
+    | none => exact SimAt.pure hR rfl
+    | some o =>
+      have hoe : o < e := (hR.dec e ft hte).1 o hout
+      simp only [Option.map]
+      refine sim_getFrame_bind hR o ?_
+      intro fso fto hto hfso hfro
+      rw [hfro.store, lookupStore_ren]
+      cases hl : lookupStore fto.store name with
+      | none =>
+        simp only [Option.map]
+        have := sh_lt σ hoe
+        exact ih m' o s t hR (by omega) (by omega) (by omega) (by omega) hot
+      | some obj =>
+        simp only [Option.map]
+        obtain ⟨k, hk⟩ := lookupStore_mem hl
+        try dsimp only
+        rw [refTo_ren, isFuncObj_ren]
+        -- where the stored reference points
+        have hr : ∀ e' n', refTo o name obj = Obj.ref e' n' → e' < orig := by
+          intro e' n' h
+          cases obj with
+          | ref e2 n2 =>
+            have := (hR.dec o fto hto).2 k e2 n2 hk
+            cases h; omega
+          | _ => all_goals (cases h; omega)
+        generalize refTo o name obj = r at hr
+        refine SimAt.bind (Q := fun _ _ => True) ?_ ?_
+        · refine sim_modifyFrame hR orig ?_
+          intro fs1 ft1 hte1 hfr1
+          exact ⟨frameR_setStore hfr1 name r, frameDec_setStore (hR.dec orig ft1 hte1) name hr⟩
+        · intro _ _ s1 t1 hR1 _
+          have hjp : ∀ (rd rd' : Nat), rd = rd' → SimAt σ
+              (if (!(isConstant name && rd == 0) && !isFuncObj obj) = true then do
+                  let __r ← modifyFrame (sh σ orig) fun f => { f with getMiss := f.getMiss + 1 }
+                  (fun _ => pure (some (ren σ r)) : Unit → M (Option Obj)) __r
+                else pure (some (ren σ r)))
+              (if (!(isConstant name && rd' == 0) && !isFuncObj obj) = true then do
+                  let __r ← modifyFrame orig fun f => { f with getMiss := f.getMiss + 1 }
+                  (fun _ => pure (some r) : Unit → M (Option Obj)) __r
+                else pure (some r)) s1 t1 (QOpt σ) := by
+            intro rd rd' hrd
+            subst hrd
+            refine SimAt.ite (fun _ => ?_) (fun _ => SimAt.pure hR1 rfl)
+            refine SimAt.bind (Q := fun _ _ => True) ?_ (fun _ _ s2 t2 hR2 _ => SimAt.pure hR2 rfl)
+            refine sim_bump hR1 orig (fun f => ⟨rfl, rfl, rfl, rfl, rfl⟩) ?_
+            intro fs2 ft2 h
+            exact ⟨by simp [h.1], h.2.1, h.2.2⟩
+          cases r with
+          | ref e' n' =>
+            simp only [ren]
+            refine sim_getFrame_bind hR1 e' ?_
+            intro fs3 ft3 _ _ hfr3
+            refine SimAt.bind_read (runM_pure _ s1) (runM_pure _ t1) ?_
+            exact hjp _ _ hfr3.depth
+          | _ =>
+            all_goals
+              simp only [ren]
+              refine SimAt.bind_read (runM_pure _ s1) (runM_pure _ t1) ?_
+              exact hjp _ _ rfl
+
+theorem sim_makeRef {σ : Sh} {s t : St} (hR : StR σ s t) (orig : Nat) (name : String) :
+    SimAt σ (makeRef (sh σ orig) name) (makeRef orig name) s t (QOpt σ) := by
+  unfold makeRef
+  refine SimAt.bind_read (runM_get s) (runM_get t) ?_
+  have h2 : sh σ t.frames.size = t.frames.size + σ.d := sh_of_ge σ hR.n0
+  by_cases ho : orig < t.frames.size
+  · have h1 := sh_lt σ ho
+    exact sim_makeRef_go orig name _ _ orig s t hR ho ho (by rw [hR.size]; omega) (Nat.le_refl _) ho
+  · -- out of range in both runs (there is at least the root frame, so the fuel is not 0)
+    have hpos := hR.pos
+    have hn0 := hR.n0
+    obtain ⟨k, hk⟩ : ∃ k, t.frames.size = k + 1 := ⟨t.frames.size - 1, by omega⟩
+    obtain ⟨k', hk'⟩ : ∃ k', s.frames.size = k' + 1 := ⟨s.frames.size - 1, by rw [hR.size]; omega⟩
+    rw [hk, hk']
+    unfold makeRef.go
+    have hte : t.frames[orig]? = none := Array.getElem?_eq_none (by omega)
+    unfold SimAt
+    rw [runM_bind, runM_bind, runM_getFrame_none hte, runM_getFrame_none (hR.none hte)]
+    exact ⟨rfl, hR⟩
+
+/-! ### envGet -/
+
+theorem frameR_delStore {σ : Sh} {i : Nat} {fs ft : Frame} (h : FrameR σ i fs ft) (name : String) :
+    FrameR σ i { fs with store := delStore fs.store name } { ft with store := delStore ft.store name } :=
+  ⟨by simp only; rw [h.store, delStore_ren], h.outer, h.depth, h.cacheKey, h.function, h.counters⟩
+
+theorem frameDec_delStore {i : Nat} {ft : Frame} (h : FrameDec i ft) (name : String) :
+    FrameDec i { ft with store := delStore ft.store name } :=
+  ⟨h.1, fun k e n hm => h.2 k e n (mem_delStore hm)⟩
+
+theorem sim_envGet {σ : Sh} {s t : St} (hR : StR σ s t) (e : Nat) (name : String) :
+    SimAt σ (envGet (sh σ e) name) (envGet e name) s t (QOpt σ) := by
+  unfold envGet
+  dsimp only
+  refine SimAt.ite (fun _ => SimAt.stop_bind hR) (fun _ => ?_)
+  refine sim_getFrame_bind hR e ?_
+  intro fs ft hte hfs hfr
+  have het := lt_of_frame hte
+  -- the part after the `self` / function-name tests
+  have hrest : SimAt σ (match lookupStore fs.store name with
+      | some (Obj.ref re rn) => do
+        let __do_lift ← refAlive re rn
+        if (!__do_lift) = true then do
+            modifyFrame (sh σ e) fun f => { f with store := delStore f.store name }
+            match fs.outer with
+              | none => pure none
+              | some _ => makeRef (sh σ e) name
+          else do
+            let tgt ← refValue re rn
+            let __do_lift ← getFrame re
+            if (!(isConstant rn && __do_lift.depth == 0) && !isFuncObj tgt) = true then do
+                modifyFrame (sh σ e) fun f => { f with getMiss := f.getMiss + 1 }
+                pure (some (Obj.ref re rn))
+              else pure (some (Obj.ref re rn))
+      | some obj => pure (some obj)
+      | none =>
+        match fs.outer with
+        | none => pure none
+        | some _ => makeRef (sh σ e) name)
+      (match lookupStore ft.store name with
+      | some (Obj.ref re rn) => do
+        let __do_lift ← refAlive re rn
+        if (!__do_lift) = true then do
+            modifyFrame e fun f => { f with store := delStore f.store name }
+            match ft.outer with
+              | none => pure none
+              | some _ => makeRef e name
+          else do
+            let tgt ← refValue re rn
+            let __do_lift ← getFrame re
+            if (!(isConstant rn && __do_lift.depth == 0) && !isFuncObj tgt) = true then do
+                modifyFrame e fun f => { f with getMiss := f.getMiss + 1 }
+                pure (some (Obj.ref re rn))
+              else pure (some (Obj.ref re rn))
+      | some obj => pure (some obj)
+      | none =>
+        match ft.outer with
+        | none => pure none
+        | some _ => makeRef e name) s t (QOpt σ) := by
+    rw [hfr.store, lookupStore_ren, hfr.outer]
+    cases hl : lookupStore ft.store name with
+    | none =>
+      simp only [Option.map]
+      cases ft.outer with
+      | none => exact SimAt.pure hR rfl
+      | some o => exact sim_makeRef hR e name
+    | some obj =>
+      cases obj with
+      | ref re rn =>
+        simp only [Option.map, ren]
+        refine SimAt.bind (sim_refAlive hR re rn) ?_
+        rintro a b s1 t1 hR1 rfl
+        refine SimAt.ite (fun _ => ?_) (fun _ => ?_)
+        · refine SimAt.bind (Q := fun _ _ => True) ?_ ?_
+          · refine sim_modifyFrame hR1 e ?_
+            intro fs1 ft1 hte1 hfr1
+            exact ⟨frameR_delStore hfr1 name, frameDec_delStore (hR1.dec e ft1 hte1) name⟩
+          · intro _ _ s2 t2 hR2 _
+            cases ft.outer with
+            | none => exact SimAt.pure hR2 rfl
+            | some o =>
+              exact sim_makeRef hR2 e name
+        · refine SimAt.bind (sim_refValue hR1 re rn) ?_
+          rintro tgs tgt s2 t2 hR2 ⟨rfl, _⟩
+          refine sim_getFrame_bind hR2 re ?_
+          intro fs3 ft3 _ _ hfr3
+          rw [hfr3.depth, isFuncObj_ren]
+          refine SimAt.ite (fun _ => ?_) (fun _ => SimAt.pure hR2 rfl)
+          refine SimAt.bind (Q := fun _ _ => True) ?_ (fun _ _ s3 t3 hR3 _ => SimAt.pure hR3 rfl)
+          refine sim_bump hR2 e (fun f => ⟨rfl, rfl, rfl, rfl, rfl⟩) ?_
+          intro fs4 ft4 h
+          exact ⟨by simp [h.1], h.2.1, h.2.2⟩
+      | _ => all_goals exact SimAt.pure hR rfl
+  refine SimAt.ite (fun _ => ?_) (fun _ => ?_)
+  · rw [hfr.function]
+    cases ft.function with
+    | none => exact SimAt.pure hR rfl
+    | some fn => exact SimAt.pure hR rfl
+  · rw [hfr.function]
+    cases ft.function with
+    | none => exact hrest
+    | some fn =>
+      simp only [Option.map]
+      refine SimAt.ite' (by simp [renFn]) (fun _ => SimAt.pure hR rfl) (fun _ => hrest)
+
 end Grol.R
